@@ -801,8 +801,17 @@ func (ls *LState) padResumeValues(n int) {
 
 func (ls *LState) kill() {
 	ls.Dead = true
-	if ls.ctxCancelFn != nil {
-		ls.ctxCancelFn()
+	// a derived context is given back once nothing can run under it any more: its thread is dead and
+	// so is every thread whose context was derived from it
+	for th := ls; th != nil && th.Dead && th.ctxChildren == 0 && th.ctxCancelFn != nil; {
+		th.ctxCancelFn()
+		th.ctxCancelFn = nil
+		owner := th.ctxOwner
+		th.ctxOwner = nil
+		if owner != nil {
+			owner.ctxChildren--
+		}
+		th = owner
 	}
 }
 
@@ -1448,16 +1457,15 @@ func (ls *LState) NewThread() (*LState, context.CancelFunc) {
 	thread.Env = ls.Env
 	var f context.CancelFunc = nil
 	if ls.ctx != nil {
-		// the new thread lives as long as the context that was attached to its creator, not as long as the
-		// creator: a coroutine's own (derived) context is cancelled when the coroutine finishes
-		base := ls.ctx
-		if ls.ctxParent != nil {
-			base = ls.ctxParent
-		}
+		// the new thread's context is a child of its creator's: whoever cancels the creator's context
+		// (the one attached with SetContext, or the one this function returned the cancel function of)
+		// stops the new thread as well. The creator's own derived context is kept alive for as long as
+		// a thread derived from it is (see kill), so a coroutine may outlive the one that created it.
 		thread.mainLoop = mainLoopWithContext
-		thread.ctx, f = context.WithCancel(base)
+		thread.ctx, f = context.WithCancel(ls.ctx)
 		thread.ctxCancelFn = f
-		thread.ctxParent = base
+		thread.ctxOwner = ls
+		ls.ctxChildren++
 	}
 	return thread, f
 }
@@ -2151,7 +2159,6 @@ func (ls *LState) SetMx(mx int) {
 func (ls *LState) SetContext(ctx context.Context) {
 	ls.mainLoop = mainLoopWithContext
 	ls.ctx = ctx
-	ls.ctxParent = nil
 }
 
 // Context returns the LState's context. To change the context, use WithContext.
@@ -2164,7 +2171,6 @@ func (ls *LState) RemoveContext() context.Context {
 	oldctx := ls.ctx
 	ls.mainLoop = mainLoop
 	ls.ctx = nil
-	ls.ctxParent = nil
 	return oldctx
 }
 
